@@ -36,7 +36,7 @@ impl Monitor for C10 {
         if tier == Tier::Sanitizer {
             vec!["windows_checked"]
         } else {
-            vec!["windows_checked", "rx1_offset_in_force", "rx2_override_in_force", "dlchannel_in_force", "rxdelay_in_force", "join_windows_checked", "classc_gap_checked", "fixed_500k_channel", "nb_timing_checked", "async_timing_checked"]
+            vec!["windows_checked", "rx1_offset_in_force", "rx2_override_in_force", "dlchannel_in_force", "rxdelay_in_force", "join_windows_checked", "classc_gap_checked", "fixed_500k_channel", "nb_timing_checked", "async_timing_checked", "remapped_channel_redefined"]
         }
     }
 
@@ -307,6 +307,8 @@ fn data_case(reg: Reg, front: Front, dslot: Option<usize>, off: Option<u8>, dcla
     {
         let mut l = link.dev.log.borrow_mut();
         l.lead_ms = lead;
+        // a board may declare a listening buffer shorter than its lead time: the timers follow the lead time
+        l.buffer_ms = if lead > 0 && lead % 100 == 0 { Some(lead / 5) } else { None };
         l.tx_done_ms = txd;
     }
     let mut model = Model { dl_map: Default::default() };
@@ -356,6 +358,32 @@ fn data_case(reg: Reg, front: Front, dslot: Option<usize>, off: Option<u8>, dcla
             if let Ok(c) = parse_uplink_cmds(&u.mac_bytes()) {
                 if c.iter().any(|(cid, p)| *cid == 0x0A && p.first().map(|b| b & 3 == 3).unwrap_or(false)) {
                     model.dl_map.insert(idx as usize, f);
+                }
+            }
+        }
+    }
+    if !reg.fixed() && rng.chance(1, 3) {
+        // an added channel, its RX1 frequency remapped, then the channel re-defined on another
+        // frequency: the new definition is paired with its own frequency again
+        let idx = (reg.default_channels().len() + rng.below(3) as usize) as u8;
+        let f1 = lo + rng.below(((hi - lo) / 100) as u64) as u32 * 100;
+        let fdl = lo + rng.below(((hi - lo) / 100) as u64) as u32 * 100;
+        let f2 = lo + rng.below(((hi - lo) / 100) as u64) as u32 * 100;
+        let acked = |link: &mut Link, cid: u8, want: u8| -> bool {
+            let probe = link.txn(&[0x23], 1, false, &Script::silent());
+            probe.up.as_ref().and_then(|u| parse_uplink_cmds(&u.mac_bytes()).ok()).map(|c| c.iter().any(|(c0, p)| *c0 == cid && p.first().map(|b| b & want == want).unwrap_or(false))).unwrap_or(false)
+        };
+        let _ = link.deliver_mac(&new_channel_req(idx, f1 / 100, 0x50), rng.bool(), false);
+        if acked(&mut link, 0x07, 3) {
+            let _ = link.deliver_mac(&dl_channel_req(idx, fdl / 100), rng.bool(), false);
+            if acked(&mut link, 0x0A, 3) {
+                model.dl_map.insert(idx as usize, fdl);
+                if rng.chance(2, 3) && f2 != f1 {
+                    let _ = link.deliver_mac(&new_channel_req(idx, f2 / 100, 0x50), rng.bool(), false);
+                    if acked(&mut link, 0x07, 3) {
+                        model.dl_map.remove(&(idx as usize));
+                        col.event("remapped_channel_redefined");
+                    }
                 }
             }
         }
@@ -451,6 +479,8 @@ fn join_case(reg: Reg, front: Front, rng: &mut Prng, col: &mut Collector) {
     {
         let mut l = dev.log.borrow_mut();
         l.lead_ms = lead;
+        // a board may declare a listening buffer shorter than its lead time: the timers follow the lead time
+        l.buffer_ms = if lead > 0 && lead % 100 == 0 { Some(lead / 5) } else { None };
         l.tx_done_ms = txd;
     }
     let model = Model { dl_map: Default::default() };
